@@ -8,7 +8,7 @@ CAL = [{"a": "EnterCalib", "momentum": "m90", "streamline": False}, {"a": "Calib
 def directed(judge):
     out = []
     for arch in ARCHS:
-        for wq in ("qint8", "qfloat8", "qint4", "qint2"):
+        for wq in ("qint8", "qfloat8", "qint4", "qint2") + (("qfloat8_e5m2",) if judge in ("C09", "C10") else ()):
             for aq in ("none", "qint8", "qfloat8"):
                 q = {"a": "Quantize", "wq": wq, "aq": aq, "filter": "all"}
                 cal = CAL if aq != "none" else []
@@ -62,10 +62,10 @@ def module_cases(c):
     if c.quick:
         descs = rnd.sample(descs, 200)
     out = []
-    wqs = ["qint8", "qfloat8", "qint4", "qint2"]
+    wqs = ["qint8", "qfloat8", "qint4", "qint2", "qfloat8_e5m2", "qfloat8_e4m3fn"]       # all six weight qtypes
     for i, d in enumerate(descs):
         aq = d["aq"]
-        prog = [{"a": "Quantize", "wq": wqs[i % 4], "aq": aq, "filter": "all"}, {"a": "Forward", "x": "x1"}]
+        prog = [{"a": "Quantize", "wq": wqs[i % 6], "aq": aq, "filter": "all"}, {"a": "Forward", "x": "x1"}]
         if aq != "none":
             prog += [{"a": "EnterCalib", "momentum": "m90", "streamline": False}, {"a": "CalibBatch", "batch": "b1"}, {"a": "ExitCalib"}, {"a": "Forward", "x": "x2"}]
         prog += [{"a": "Freeze"}, {"a": "Forward", "x": "x1"}]
@@ -197,17 +197,18 @@ def body(c, judge):
 def grad_part(c, consts, ctrls):
     """StraightThrough: gradients of quantized Linear / Conv2d against the float twin, ranks 2-4, upstream gradient layouts"""
     import copy
+    import zlib
     cases = []
     seed = c.seed
     dtypes = ["float32", "float16"] if c.quick else ["float32", "float16", "bfloat16"]
     for dt in dtypes:
         for kind, ranks in (("linear", (2, 3, 4)), ("conv2d", (3, 4))):
-            for wq in ("qint8", "qfloat8", "qint4", "qint2"):
+            for wq in ("qint8", "qfloat8", "qfloat8_e5m2", "qint4", "qint2"):
                 for aq in ("none", "qint8", "qfloat8"):
                     for rank in ranks:
                         for go in ("dense", "permuted", "expanded"):
                             for frozen in (False, True):
-                                if c.quick and (hash((dt, kind, wq, aq, rank, go, frozen)) % 3):
+                                if c.quick and (zlib.crc32(repr((dt, kind, wq, aq, rank, go, frozen, c.seed)).encode()) % 3):
                                     continue
                                 seed += 1
                                 cases.append({"dtype": dt, "kind": kind, "wq": wq, "aq": aq, "rank": rank, "go": go, "frozen": frozen,
